@@ -10,6 +10,7 @@ import (
 
 	"verifmc/drive"
 	"verifmc/rep"
+	"verifmc/sx"
 	"verifmc/term"
 )
 
@@ -73,7 +74,14 @@ func c13Round(r *rep.Run, h *drive.Harness, c *c13case, o drive.Opt, stats *[3]i
 		r.Violate("dumptable-panic", site, sprintf("DumpTable panics: %v", p), d(nil))
 	}
 	if !strings.HasPrefix(text, "(") {
-		return // folded to a bare scalar constant: excluded by the statement
+		// folded to a bare scalar constant: excluded by the statement — but a
+		// bare variable is not a constant
+		if bt, perr := sx.Parse(text); perr == nil && bt.K == term.KVar {
+			if _, cerr := h.Compile(mk(drive.Opt{}), text, 0); cerr != nil {
+				r.Violate("dump-does-not-compile", c.what+o.String()+"bare", sprintf("the program collapsed to the bare variable %s, whose Dump does not compile: %v", text, cerr), d(map[string]interface{}{"dump": text}))
+			}
+		}
+		return
 	}
 	atomic.AddInt64(&stats[1], 1)
 	unopt := drive.Opt{}
